@@ -364,6 +364,13 @@ def _history_chunk(rng):
         for key in sorted(written, key=str):
             mid, target = key
             ref = _REF["api:" + API_KIND[mid]] if mid in API_KIND else _REF["%d:%s" % key]
+            # ... after a write() that the destination refused (a file that has been closed): the object is what it was
+            try:
+                closed = io.BytesIO() if target.startswith("excel") else io.StringIO()
+                closed.close()
+                tabs[key].write(closed)
+            except Exception:
+                pass
             data = write(tabs[key], target)
             n += 1
             if hashlib.sha256(data).hexdigest() != ref["sha"]:
